@@ -51,8 +51,9 @@ structure Field where
 structure WOpts where
   delim : Char
   lb : LB
-  /-- `false` = the pinned code: only a delimiter or a quotation mark inside the contents forces
-      quoting.  `true` = the repaired writer: a CR or LF inside the contents forces quoting too. -/
+  /-- `true` = the code since /repo 3f80460 (`encodeCSV` requests quoting for a field containing CR
+      or LF).  `false` = the writer before: only a delimiter or a quotation mark forces quoting.
+      The harness probes the real writer and passes the rule it observes. -/
   quoteLB : Bool
 
 /-- `Writer.includeDelimiterOrQuote` -/
